@@ -528,7 +528,7 @@ def classify(designs, res=None, nchunks=None):
                     lines = acc.get(k)
                     if not lines:
                         raise MachineryError("Elab printed no result for design %d\n%s" % (base + k, r.out[-2000:]))
-                    e = {"nets": {}, "defects": None, "unspec": None}
+                    e = {"nets": {}, "defects": None, "unspec": None, "mwwhy": set()}
                     for ln in lines:
                         if ln[0] == "N":
                             if ln[2] in e["nets"]:
@@ -537,7 +537,7 @@ def classify(designs, res=None, nchunks=None):
                         else:
                             if e["defects"] is not None:
                                 raise MachineryError("two defect sets for design %d" % (base + k))
-                            e["defects"], e["unspec"] = set(ln[1]), set(ln[2])
+                            e["defects"], e["unspec"], e["mwwhy"] = set(ln[1]), set(ln[2]), set(ln[3])
                     out[base + k - 1] = e
         return out, cov
     finally:
@@ -589,15 +589,21 @@ def _net_pairs(nets):
     return {(frozenset(m), w) for (w, m) in nets}
 
 
-def judge(D, exp, out, nets):
+def judge(D, exp, out, nets, prop):
     """The verdict ElabTrace gives for one elaboration outcome, recomputed in Python from the
-    result TLC printed (spec -> code direction).  Returns a clause name or None."""
+    result TLC printed (spec -> code direction).  Returns a clause name or None.  prop "C09":
+    accept / reject / error class only (nets and writers are C08's subject); prop "C08": designs
+    with defects are outside the premise."""
     illegal = bool(exp["defects"])
+    if prop == "C08" and illegal:
+        return None
     if out == "ok":
         if exp["unspec"] and illegal:
             return None
         if illegal:
             return "illegal-design-accepted"
+        if prop == "C09":
+            return None
         if {frozenset(m) for (_, m) in nets} != set(exp["nets"]):
             return "nets-are-not-the-connected-components"
         if _net_pairs(nets) != {(N, w) for N, w in exp["nets"].items()}:
@@ -631,8 +637,13 @@ def images(defects):
     return s
 
 
-def family_key(D, clause, out, msg, reduced_ok):
-    """One stable key per root cause for the known families; None -> design-specific key."""
+def family_key(D, e, clause, out, msg, reduced_ok):
+    """Name of the root cause for the failing shapes recognised so far (each is pinned by a shape
+    predicate of the design AND the clause / exception / message observed, so that another
+    violation on a similar design keeps its own key); None -> "<clause>:<outcome>".  The violation
+    key is always "<this name>:<canonical text of the design>", the same under C08 and C09."""
+    if clause == "illegal-design-accepted" and e["defects"] == {"MW"} and e["mwwhy"] == {"rov"}:
+        return "net-drives-overlapping-members-accepted"
     if clause == "legal-design-rejected" and out == "MultiWriterError" and D.same_block_overlapping_sibling_slices():
         m = _SIB_RE.search(msg or "")
         if m and m.group(1) == m.group(2):
@@ -659,13 +670,26 @@ def reduced(D):
     return R
 
 
-def check_designs(res, designs, *, cap, nsim, ncyc, hashseeds, tag, cross_seed=0):
+def check_designs(res, designs, *, prop, cap, nsim, ncyc, hashseeds, tag, cross_seed=0):
     """The whole pipeline for a list of designs.  Returns a dict with everything the canaries need.
-    Must be called inside common.scratch()."""
+    Must be called inside common.scratch().  prop "C08": only the designs Elab.tla calls free of
+    defects are elaborated (the others are outside C08's premise; C09 elaborates them)."""
     import tlc
     from common import MachineryError, rng, seed
+    assert prop in ("C08", "C09")
     R = rng(tag)
+    t0 = time.time()
     exp, cov = classify(designs, res)
+    res.note("seconds_classify", round(time.time() - t0, 1))
+    res.count("designs_classified_by_Elab", len(designs))
+    exp_all = exp
+    if prop == "C08":
+        keep = [i for i, e in enumerate(exp) if not e["defects"]]
+        res.count("designs_with_defects_not_elaborated", len(designs) - len(keep))
+        designs, exp = [designs[i] for i in keep], [exp[i] for i in keep]
+    if not designs:
+        return {"designs": [], "exp": [], "exp_all": exp_all, "results": [], "traces": [], "verdicts": [],
+                "elab_cov": cov, "trace_runs": [], "items": []}
     items = []
     nvar = 0
     for i, D in enumerate(designs):
@@ -673,7 +697,10 @@ def check_designs(res, designs, *, cap, nsim, ncyc, hashseeds, tag, cross_seed=0
         nvar += len(vs)
         sim = sorted({0, len(vs) - 1} | {R.randrange(len(vs)) for _ in range(max(0, nsim - 2))})[:nsim] if nsim else []
         items.append({"idx": i, "d": D, "variants": vs, "sim": sim, "ncyc": ncyc, "full": full})
+    t0 = time.time()
     results = run_jobs(items, hashseeds, seed())
+    res.note("seconds_elaborate", round(time.time() - t0, 1))
+    t0 = time.time()
     # the same designs again under other hash seeds (subset): outcomes must be the same sets
     if cross_seed:
         sub = [dict(items[i], idx=i) for i in range(0, len(items), max(1, len(items) // cross_seed))]
@@ -687,6 +714,7 @@ def check_designs(res, designs, *, cap, nsim, ncyc, hashseeds, tag, cross_seed=0
                     base["msgs"].setdefault(k, v)
                 base["nvar"] += r["nvar"]
                 nvar += r["nvar"]
+    res.note("seconds_elaborate_other_hashseeds", round(time.time() - t0, 1))
     res.add_evals(nvar)
     res.count("elaborations", nvar)
     res.count("designs", len(designs))
@@ -707,7 +735,7 @@ def check_designs(res, designs, *, cap, nsim, ncyc, hashseeds, tag, cross_seed=0
         for k, v in sorted(r["outs"].items(), key=lambda kv: kv[1]["ex"]):
             out, nets = json.loads(k)
             evs.append({"k": "elab", "out": out, "nets": nets, "n": v["n"]})
-            c = judge(D, e, out, nets)
+            c = judge(D, e, out, nets, prop)
             if c:
                 bad.append((c, out, nets, v))
             res.count("outcome:" + out.split(":")[0], v["n"])
@@ -717,13 +745,15 @@ def check_designs(res, designs, *, cap, nsim, ncyc, hashseeds, tag, cross_seed=0
             else:
                 evs += s["ev"]
         pyverdict.append(bad)
-        traces.append({"d": D.tlc(), "ev": evs})
+        traces.append({"p": prop, "d": D.tlc(), "ev": evs})
         owners.append(i)
         res.distinct(D.key())
     res.count("legal_designs", nlegal)
     res.count("designs_with_unspecified_shape", nunspec)
     res.count("designs_with_order_dependent_outcome", nord)
+    t0 = time.time()
     runs, verdicts = tlc.validate_traces("ElabTrace", {"traces": traces})
+    res.note("seconds_validate_traces", round(time.time() - t0, 1))
     for r in runs:
         res.add_tlc(r)
     res.add_traces(len(traces))
@@ -759,15 +789,13 @@ def check_designs(res, designs, *, cap, nsim, ncyc, hashseeds, tag, cross_seed=0
         rres = run_jobs(ritems, hashseeds, seed())
         for i, d, e2, r2 in zip(red_idx, rd, rexp, rres):
             same_exp = (e2["nets"] == exp[i]["nets"] and e2["defects"] == exp[i]["defects"])
-            conf = all(judge(d, e2, *json.loads(k)) is None for k in r2["outs"])
+            conf = all(judge(d, e2, *json.loads(k), prop) is None for k in r2["outs"])
             red_ok[i] = same_exp and conf
     for (i, clause, out, tl, py) in pending:
         D, e, r = designs[i], exp[i], results[i]
         msg = r["msgs"].get(out, "")
-        fam = family_key(D, clause, out, msg, red_ok.get(i, False))
-        if fam is None and clause == "net-incoherent" and "NetSelfOverlap" in e["unspec"]:
-            fam = "net-with-overlapping-members-incoherent"
-        key = fam or ("%s:%s:%s" % (clause, out, D.key()))
+        fam = family_key(D, e, clause, out, msg, red_ok.get(i, False))
+        key = "%s:%s" % (fam or ("%s:%s" % (clause, out)), D.key())
         outs = {json.loads(k)[0]: v["n"] for k, v in r["outs"].items()}
         res.violation(key,
                       "%s: design %s -- spec: defects=%s nets=%s; pymtl3 over %d statement orders/side flips: %s%s"
@@ -775,11 +803,12 @@ def check_designs(res, designs, *, cap, nsim, ncyc, hashseeds, tag, cross_seed=0
                          sorted((w, sorted(N)) for N, w in e["nets"].items()), r["nvar"], outs,
                          (" [" + msg.replace("\n", " ")[:160] + "]") if msg else ""),
                       {"design": D.dump(), "expected": {"defects": sorted(e["defects"]), "unspec": sorted(e["unspec"]),
+                                                        "two_drivers_because": sorted(e["mwwhy"]),
                                                         "nets": sorted((w, sorted(N)) for N, w in e["nets"].items())},
                        "observed": r["outs"], "messages": r["msgs"],
                        "example_variant": items[i]["variants"][(tl[2].get("n") and r["outs"][json.dumps([tl[2]["out"], tl[2]["nets"]])]["ex"]) if tl and tl[2].get("k") == "elab" else 0],
                        "source": gen_variant(D, *items[i]["variants"][0], 0, "X")[0]})
-    return {"designs": designs, "exp": exp, "results": results, "traces": traces, "verdicts": verdicts,
+    return {"designs": designs, "exp": exp, "exp_all": exp_all, "results": results, "traces": traces, "verdicts": verdicts,
             "elab_cov": cov, "trace_runs": runs, "items": items}
 
 
@@ -1402,8 +1431,11 @@ def replay(pid, obj):
     D = Design.load(obj["detail"]["design"])
     res = common.Result(pid, "replay")
     with common.scratch():
-        check_designs(res, [D], cap=720, nsim=4, ncyc=4, hashseeds=[0, 1, 2, 3], tag="replay")
+        check_designs(res, [D], prop=pid, cap=720, nsim=4 if pid == "C08" else 0, ncyc=4,
+                      hashseeds=[0, 1, 2, 3], tag="replay")
     print("design:", D.key())
+    if pid == "C08" and res.notes.get("designs_with_defects_not_elaborated"):
+        print("Elab.tla finds defects in this design: outside C08's premise (see C09)")
     print(gen_variant(D, list(range(len(D.stmts))), 0, 0, "X")[0])
     for v in res.violations:
         print("VIOLATION", v["key"], "--", v["what"])
